@@ -406,6 +406,9 @@ def library() -> List[Dict[str, Any]]:
         {"kind": "mux", "name": "MUXe", "byte": 1, "key": {"byte": 0, "dop": "u8"},
          "cases": [{"name": "c0", "lo": 1, "hi": 1, "struct": "S_item"}, {"name": "c1", "lo": 2, "hi": 5}],
          "default": {"name": "dflt", "struct": "S_one"}},
+        {"kind": "mux", "name": "MUXf", "byte": 1, "key": {"byte": 0, "dop": "u8"},
+         "cases": [{"name": "c0", "lo": 0, "hi": 1, "struct": "S_one"}, {"name": "c1", "lo": 2, "hi": 5, "struct": "S_item"}],
+         "default": {"name": "dflt"}},
         {"kind": "table", "name": "T", "key_dop": "u8",
          "rows": [{"name": "r1", "key": 1, "struct": "S_item"}, {"name": "r2", "key": 2, "dop": "u16"}, {"name": "r3", "key": 3, "struct": "S_flat"}]},
         {"kind": "dtcdop", "name": "dtc3", "dct": std("A_UINT32", 24), "dtcs": [{"name": "P0001", "code": 1}, {"name": "P1234", "code": 0x123456}]},
@@ -466,6 +469,8 @@ def templates() -> Dict[str, Any]:
     reg("MUXd", None, lambda i: [{f"mx{i}": ("c0", _item(1, 2))}, {f"mx{i}": ("c1", {"a": 3, "b": 0x1234})}, {f"mx{i}": ("dflt", {"a": 4})},
                                  {f"mx{i}": (1, _item(1, 2))}, {f"mx{i}": (5, {"a": 3, "b": 0x1234})}, {f"mx{i}": (9, {"a": 4})}],
         lambda i: [P("VALUE", f"mx{i}", dop="MUXd")])
+    reg("MUXf", None, lambda i: [{f"mf{i}": ("c0", {"a": 4})}, {f"mf{i}": (1, {"a": 4})}, {f"mf{i}": (0, {"a": 4})}, {f"mf{i}": (5, _item(1, 2))},
+                                 {f"mf{i}": (2, _item(1, 2))}, {f"mf{i}": (9, {})}], lambda i: [P("VALUE", f"mf{i}", dop="MUXf")])
     reg("MUXn", None, lambda i: [{f"my{i}": ("c0", _item(1, 2))}, {f"my{i}": ("c1", {"a": 3, "b": 0x1234})}], lambda i: [P("VALUE", f"my{i}", dop="MUXn")])
     reg("MUXe", None, lambda i: [{f"mz{i}": ("c0", _item(1, 2))}, {f"mz{i}": ("c1", {})}, {f"mz{i}": ("dflt", {"a": 4})}],
         lambda i: [P("VALUE", f"mz{i}", dop="MUXe")])
@@ -500,7 +505,7 @@ def templates() -> Dict[str, Any]:
 
 
 SIGMA_FULL = ["CC8", "CC16L", "CCNIB", "PC", "V8", "V12b", "V8b4", "VF32", "SLK", "VLIN", "VDEF", "VTT", "RES8", "RES4", "SYS", "LK", "TKS", "TKSROW", "SFLAT",
-              "SSUB", "SNEST", "SSIZED", "SF2", "SF2p", "DL1", "DL2", "EOP", "EMLAST", "EMCC", "MUXd", "MUXn", "MUXe", "SDYN", "EOPD", "DLD", "EMD", "MUXD", "EOPDE", "EOPLK", "SKB2", "SKB4", "VLDEF", "DTC", "DTCENV", "BZ", "BEOP", "LEAD"]
+              "SSUB", "SNEST", "SSIZED", "SF2", "SF2p", "DL1", "DL2", "EOP", "EMLAST", "EMCC", "MUXd", "MUXn", "MUXe", "MUXf", "SDYN", "EOPD", "DLD", "EMD", "MUXD", "EOPDE", "EOPLK", "SKB2", "SKB4", "VLDEF", "DTC", "DTCENV", "BZ", "BEOP", "LEAD"]
 SIGMA_3 = ["CC8", "V8", "V12b", "V8b4", "VDEF", "RES8", "LK", "TKS", "SFLAT", "SSIZED", "SF2p", "DL1", "EOP", "MUXd", "DTCENV", "BZ", "SDYN", "EOPD"]
 SIGMA_4 = ["CC8", "V12b", "SSIZED", "DL1", "MUXd", "BZ"]
 MODES = ["auto", "at", "hole"]
@@ -535,8 +540,8 @@ def build_program(seq: List[Tuple[str, str]], kind: str = "REQUEST", request: Op
             return None
         ps = [dict(p) for p in t["params"](idx)]
         # positions
-        if mode != "auto" or t["rel"]:
-            if cursor is None:
+        if (mode not in ("auto", "far", "zero")) or t["rel"]:
+            if cursor is None and not (mode in ("far", "zero") and not t["rel"]):
                 return None
         if mode == "auto":
             start = cursor
